@@ -26,14 +26,14 @@ def _export(nl):
            '&& (i < count ==> (__CPROVER_same_object (zp, z->_mp_d) && 0 <= CC && CC <= zsize && 0 <= lbits && lbits <= 63 && (unsigned long) CC * 64 - lbits == i * V_KC '
            '&& limb == (lbits ? z->_mp_d[CC - (CC > 0)] >> (64 - lbits) : (mp_limb_t) 0) && (lbits == 0 || CC > 0) '
            '&& __CPROVER_same_object (dp, data) && dp == @D@ + V_ADDR ((long) i))))').replace('CC', C).replace('@D@', D)
-    hv = ('{ long V_c = nondet_long (); __CPROVER_assume (0 <= V_c && V_c <= zsize); zp = z->_mp_d + V_c; long V_a = nondet_long (); __CPROVER_assume (0 <= V_a && V_a < gh); dp = %s + V_a; }' % D)
+    hv = ('{ long V_c = nondet_long (); __CPROVER_assume (0 <= V_c && V_c <= zsize); zp = z->_mp_d + V_c; long V_a = nondet_long (); __CPROVER_assume (i >= count || (0 <= V_a && V_a < gh)); dp = %s + V_a; }' % D)
     return dict(
         name='mpz_export_bytes_n%d' % nl, props=['C17', 'C04', 'C15'], source='mpz/export.c', contracts=['mpn.h', 'mpz.h'],
         contract_text=('#define V_NL %d\n#define V_KC %d\n' % (nl, k)) + EX_CONTRACT, enforce=['__gmpz_export'], unwind=3,
         functions={'__gmpz_export': dict(
             rewrites=[(r'align = \(\(char \*\) data - \(char \*\)[^;]*% sizeof \(mp_limb_t\);', 'align = (unsigned) (((unsigned long) data) % sizeof (mp_limb_t));', 'address of data taken by an integer cast instead of subtracting the null pointer')],
             loops={0: 'unreachable', 1: 'unreachable', 2: 'unreachable', 3: 'unreachable',
-                   4: dict(scalars=['i', 'j', 'limb', 'lbits'], havoc_targets=['zp', 'dp'], local_to_body=['newlimb'], havoc=hv, slices=[('data', 'gh')], inv=inv, dec='(count - i)'),
+                   4: dict(scalars=['i', 'j', 'limb', 'lbits'], havoc_targets=['zp', 'dp'], local_to_body=['newlimb'], havoc=hv, havoc_inv={'V_c': '(zp - z->_mp_d)', 'V_a': '(dp - %s)' % D}, slices=[('data', 'gh')], inv=inv, dec='(count - i)'),
                    5: 'unwind', 6: 'unwind'})},
         assumptions=['size == 1 (byte-sized words) and nail == %d only; data and countp non-NULL; the whole-limb fast paths (size == 8, nail == 0) and words of other sizes have no unit' % nl,
                      '`align = ((char *) data - (char *) NULL) % sizeof (mp_limb_t)`: subtracting the null pointer to get an address is outside ISO C (flat memory with gcc); REWRITTEN in the verified text to `(unsigned long) data % sizeof (mp_limb_t)` - the one spot where the verified text differs from the real text', 'the two inner loops run at most once for size == 1 and are unwound completely (unwinding assertions on)'],
